@@ -160,31 +160,8 @@ func c01(c *Ctx) {
 	if a == nil {
 		return
 	}
-	fn := a.fn
-	K, R := a.K, a.R
-	vcall := a.validate
-	gValid := core.ErrNil("validate", func(x *ssa.Call) bool { return x == vcall })
-	eq := func(kf, rf string) core.Guard {
-		return core.BytesEq("K."+kf+", R."+rf, core.FieldOf(K, kf), core.FieldOf(R, rf))
-	}
-	guards := []core.Guard{gValid, eq("RegistrationNonce", "Nonce"), eq("CertificatePublicKeyPkix", "CertificatePublicKeyPkix"), eq("EncryptionPublicKeyBytes", "EncryptionPublicKeyBytes")}
-	type sink struct {
-		name string
-		in   ssa.Instruction
-	}
-	var sinks []sink
-	for i, e := range a.encrypts {
-		sinks = append(sinks, sink{fmt.Sprintf("call EncryptMessage#%d", i), e})
-	}
-	for i, ret := range a.credRets {
-		sinks = append(sinks, sink{fmt.Sprintf("credential-return#%d", i), ret})
-	}
-	for _, s := range sinks {
-		for _, g := range guards {
-			res := core.CutReach(p, fn, g, s.in.Block())
-			r.CutOb(p, "R-C01.1", "registration.FetchNodeCredentials sink="+s.name+" guard="+g.Name, p.Pos(s.in.Pos()), res, g)
-		}
-	}
+	gValid := fetchBinding(c, a, "R-C01.1")
+	fn, R := a.fn, a.R
 
 	kProvenance(c, a, "R-C01.2")
 
@@ -600,4 +577,39 @@ func helperOK(cal *ssa.Function) bool {
 	}
 	res := cal.Signature.Results()
 	return res.Len() == 2 && namedType(res.At(0).Type(), typesPkg, "NodeInformation") && paramOfType(cal, typesPkg, "FetchNodeCredentialsInfo") != nil
+}
+
+// fetchBinding checks that every EncryptMessage call and every return of a
+// non-empty response in FetchNodeCredentials is cut by validation success and
+// by the three equalities between the record K and the validated request R.
+// It returns the validation guard.
+func fetchBinding(c *Ctx, a *fetchAnchors, rule string) core.Guard {
+	p, r := c.P, c.R
+	fn := a.fn
+	K, R := a.K, a.R
+	vcall := a.validate
+	gValid := core.ErrNil("validate", func(x *ssa.Call) bool { return x == vcall })
+	eq := func(kf, rf string) core.Guard {
+		return core.BytesEq("K."+kf+", R."+rf, core.FieldOf(K, kf), core.FieldOf(R, rf))
+	}
+	guards := []core.Guard{gValid, eq("RegistrationNonce", "Nonce"), eq("CertificatePublicKeyPkix", "CertificatePublicKeyPkix"), eq("EncryptionPublicKeyBytes", "EncryptionPublicKeyBytes")}
+	type sink struct {
+		name string
+		in   ssa.Instruction
+	}
+	var sinks []sink
+	for i, e := range a.encrypts {
+		sinks = append(sinks, sink{fmt.Sprintf("call EncryptMessage#%d", i), e})
+	}
+	for i, ret := range a.credRets {
+		sinks = append(sinks, sink{fmt.Sprintf("credential-return#%d", i), ret})
+	}
+	for _, s := range sinks {
+		for _, g := range guards {
+			res := core.CutReach(p, fn, g, s.in.Block())
+			r.CutOb(p, rule, "registration.FetchNodeCredentials sink="+s.name+" guard="+g.Name, p.Pos(s.in.Pos()), res, g)
+		}
+	}
+
+	return gValid
 }
